@@ -210,9 +210,9 @@ type concClient struct {
 	// evidence that requests really raced pushes
 	racingReqs     atomic.Int64 // opens / changes sent while responses were still waiting to be processed by the client
 	supersededAcks atomic.Int64 // ACKs for a nonce that a later response of the same type had already superseded on the wire
-	first bool
-	nd    func() *discovery.DiscoveryRequest
-	dead  atomic.Bool
+	first          bool
+	nd             func() *discovery.DiscoveryRequest
+	dead           atomic.Bool
 }
 
 func errDetail() *status.Status {
